@@ -1,7 +1,8 @@
 Require Extraction.
 Require Import ExtrOcamlBasic.
 From Coq Require Import ZArith NArith List.
-From VB Require Import Rules.RulesDefs.
+From VB Require Import Rules.RulesDefs Rules.C19HonestDefs.
 Extraction "Rules_model.ml" Nat.pred N.succ Z.succ
   mkBlk mkWorld mkParams default_params mkAtv mkVtb mkBody honest_atv atv_ctx create_from_previous
-  st0 exec_block apply_chain err_code ancestor_at anc_or_eq hdr_ok vtime bhdr_ok btime.
+  st0 exec_block apply_chain err_code ancestor_at anc_or_eq hdr_ok vtime bhdr_ok btime
+  known_after height_of mkVtbSpec honest_btc_context honest_vtb honest_vtbs.
